@@ -428,6 +428,9 @@ collect:
 	if zeroTol {
 		o.Class("zero-tolerance")
 	}
+	if c.TimeoutMs > 0 && c.WaitMs >= c.TimeoutMs {
+		o.Class("retry-pause>=tolerance")
+	}
 	if c.ErrorAfterStep > 0 {
 		o.Class("read-error-then-more-data-available")
 	}
@@ -502,6 +505,21 @@ func gen1(t *rapid.T) Case {
 			n += st.Data
 		}
 		c.Stream = gen.Stream{Segs: []gen.Segment{{Kind: "raw", Note: "prefix-before-read-error", Data: append([]byte{}, input[:n]...)}}}
+	}
+	// Retry pause as long as or longer than the tolerance (the documentation's own example has timeout 1,
+	// sleep time 2): a single interruption followed by data must still be survived.  Only single
+	// interruptions in this configuration - a second one in a row legitimately ends the run.
+	if c.TimeoutMs > 0 && rapid.IntRange(0, 5).Draw(t, "waitNotBelowTolerance") == 4 {
+		pair := rapid.SampledFrom([][2]uint{{1, 2}, {5, 5}, {2, 10}}).Draw(t, "toleranceAndWait")
+		c.TimeoutMs, c.WaitMs, c.PreludeTolMs = pair[0], pair[1], pair[0]
+		for i := range c.Steps {
+			if c.Steps[i].Faults > 1 {
+				c.Steps[i].Faults = 1
+			}
+		}
+		if c.StallMs > 0 {
+			c.StallMs = int(c.TimeoutMs) + 30
+		}
 	}
 	if len(c.Steps) > 1 && rapid.IntRange(0, 3).Draw(t, "errorThenMoreData") == 1 {
 		c.ErrorAfterStep = 1 + rapid.IntRange(0, len(c.Steps)-2).Draw(t, "errorAfterStep")
